@@ -152,11 +152,11 @@ class Parser(object):
                 line, pos
             )
 
-    def _is_type_sizer_compatible(self, typename):
+    def _is_type_sizer_compatible(self, typename, _seen=()):
         if typename in {type_ + width for type_ in 'ui' for width in ['8', '16', '32', '64']}:
             return True
-        elif typename in self.typedecls and isinstance(self.typedecls[typename], model.Typedef):
-            return self._is_type_sizer_compatible(self.typedecls[typename].type_name)
+        elif typename in self.typedecls and isinstance(self.typedecls[typename], model.Typedef) and typename not in _seen:
+            return self._is_type_sizer_compatible(self.typedecls[typename].type_name, _seen + (typename,))
         else:
             return False
 
